@@ -490,11 +490,36 @@ func fieldRule(c *Ctx, m, field string, t types.Type, v *ssa.Function) {
 			e := w.ExprOf(iff.Cond)
 			op, x, y, okc := ir.Pred{E: e, Pol: true}.Cmp()
 			if okc && op == "!=" && y.Op == "const" && y.Name == "nil" && x.Op == "res" && x.Name == "1" && calleeIs(x.Args[0], "types.AccAddressFromBech32") &&
-				x.Args[0].Args[0].Any(asserted) && onlyErrorsFrom(c, v, b.Succs[0]) && ir.EnclosingLoopHeader(v, iff) != nil {
-				elem = true
+				x.Args[0].Args[0].Any(asserted) && onlyErrorsFrom(c, v, b.Succs[0]) {
+				hdr := ir.EnclosingLoopHeader(v, iff)
+				if hdr == nil {
+					continue
+				}
+				// every iteration must pass this check: no back edge of the loop is reachable from the
+				// header around the If (a `continue` for some elements would let them through unvalidated)
+				bypass := false
+				for _, be := range ir.BackEdges(v) {
+					if be[1] != hdr {
+						continue
+					}
+					term := be[0].Instrs[len(be[0].Instrs)-1]
+					for _, su := range hdr.Succs {
+						if su.Dominates(b) || su == b {
+							if term != ssa.Instruction(iff) && ir.ReachesFrom(v, su, 0, term, ir.Cut{Barrier: func(in ssa.Instruction) bool { return in == ssa.Instruction(iff) }}) {
+								bypass = true
+							}
+						}
+					}
+				}
+				// the element checked is the loop element of Split(value, ",") itself (not a filtered copy)
+				arg := x.Args[0].Args[0]
+				direct := arg.Op == "elem" && calleeIs(arg.Args[0], "strings.Split")
+				if !bypass && direct {
+					elem = true
+				}
 			}
 		}
 		r.Require(empty, "A7.validate-rule", key+"|non-empty", w.Pos(v.Pos()), "the validator of "+key+" rejects an empty signer list", "no rejecting len == 0 comparison")
-		r.Require(elem, "A7.validate-rule", key+"|well-formed", w.Pos(v.Pos()), "the validator of "+key+" rejects every element that is not a valid bech32 address (in a loop over the comma-separated list)", "no rejecting AccAddressFromBech32 error inside a loop")
+		r.Require(elem, "A7.validate-rule", key+"|well-formed", w.Pos(v.Pos()), "the validator of "+key+" rejects every element of strings.Split(value, \",\") that is not a valid bech32 address — every iteration, no element skipped (Validate counts the same split elements against MinAccepts)", "no rejecting AccAddressFromBech32 check that every loop iteration passes")
 	}
 }
